@@ -1,6 +1,7 @@
 """C10 — container framing (claimed in part): R-JXLP (typestate table), R-BOXSIZE, R-BOXHDR, R-CONSUMED."""
 from .. import validation
 from ..engine import Ctx
+from . import specconst
 from ..facts import callee, op_local, op_place, op_const_int, pos_line, place_fields
 from ..mirutil import Defs, access_path, switch_subject, find_path_edges, succ_edges, const_explore
 
@@ -440,19 +441,82 @@ def rule_consumed(ctx, bs):
                 "after emit_single, next() can return without adding the consumed bytes to previous_consumed_bytes: bytes consumed by the "
                 "parser are reported as unconsumed and are fed again by callers following the re-feed contract", fn=f,
                 pos=f.term_pos(emit[0]), path=path)
-    # the stored value is old + (len - len)
+    # the stored value is old + (A - B), A = remaining_input.len() taken before emit_single, B = the same taken after it
     defs = Defs(f)
+
+    def resolve(o, depth=0):
+        """follow moves/copies and the `.0` of a checked operation to the defining rvalue / call of an operand"""
+        if depth > 12:
+            return None
+        p = op_place(o)
+        if p is None:
+            return ("const", o)
+        d = defs.single(p[0])
+        if d is None:
+            return None
+        if d[2] == "assign":
+            rv = d[3][2]
+            if rv[0] == "use":
+                return resolve(rv[1], depth + 1)
+            if rv[0] == "bin":
+                return ("bin", rv[1], rv[2], rv[3], d[0])
+            return ("rv", rv, d[0])
+        if d[2] == "call":
+            return ("call", d[3], d[0])
+        return None
+
+    def load_block(l, depth=0):
+        """block of the statement that reads the field `remaining_input` into (a chain ending in) local l"""
+        if depth > 10:
+            return None
+        d = defs.single(l)
+        if not d or d[2] != "assign":
+            return None
+        rv = d[3][2]
+        pl = rv[2] if rv[0] == "ref" else (op_place(rv[1]) if rv[0] == "use" else None)
+        if pl is None:
+            return None
+        if any(n == "remaining_input" for n, _ in place_fields(pl)):
+            return d[0]
+        return load_block(pl[0], depth + 1)
+
+    def is_len_of_remaining(o):
+        r = resolve(o)
+        if not r or r[0] != "call":
+            return None
+        c = callee(r[1])
+        if not c or not c["fn"].endswith("::len") or not r[1][2]:
+            return None
+        al = op_local(r[1][2][0])
+        return load_block(al) if al is not None else None
+
     good_val = False
     for b in stores:
         for st in f.stmts(b):
-            if st[0] == "=" and place_fields(st[1]) and place_fields(st[1])[-1][0] == "previous_consumed_bytes":
-                nm = validation.subject_name(f, defs, ["c", [st[1][0]]]) if False else None
-                rvs = validation.subject_name(f, defs, st[2][1]) if st[2][0] == "use" else None
-                if rvs and "previous_consumed_bytes" in str(rvs) and "len(" in str(rvs) and "-" in str(rvs):
-                    good_val = True
-                    ctx.ok(rid, "counter-value", "stored value: %s" % rvs, nontrivial=True, fn=f)
+            if st[0] == "=" and place_fields(st[1]) and place_fields(st[1])[-1][0] == "previous_consumed_bytes" and st[2][0] == "use":
+                r = resolve(st[2][1])
+                if not (r and r[0] == "bin" and r[1] in ("Add", "AddWithOverflow")):
+                    continue
+                for old_o, diff_o in ((r[2], r[3]), (r[3], r[2])):
+                    oldn = validation.subject_name(f, defs, old_o, use_names=False)
+                    if oldn is None or "previous_consumed_bytes" not in str(oldn):
+                        continue
+                    d = resolve(diff_o)
+                    if not (d and d[0] == "bin" and d[1] in ("Sub", "SubWithOverflow")):
+                        continue
+                    ba, bb_ = is_len_of_remaining(d[2]), is_len_of_remaining(d[3])
+                    if ba is None or bb_ is None:
+                        continue
+                    # A is read from the field at or before the emit_single block, B after it
+                    before = all(f.dominates(ba, e) for e in emit)
+                    after = all(f.dominates(f.term(e)[4], bb_) for e in emit)
+                    if before and after:
+                        good_val = True
+                        ctx.ok(rid, "counter-value", "stored value is old + (remaining_input.len() before emit_single - the same after)",
+                               nontrivial=True, fn=f)
     if stores and not good_val:
-        ctx.bad(rid, "counter-value", "the value stored into previous_consumed_bytes is not `old + (initial.len() - remaining.len())`", fn=f)
+        ctx.bad(rid, "counter-value", "the value stored into previous_consumed_bytes is not `old + (remaining_input.len() before emit_single "
+                "- remaining_input.len() after)`", fn=f)
     # writers census
     writers = set()
     for g in bs.fn_list:
@@ -582,6 +646,7 @@ def main(pid, tier, repo=None):
     rule_boxhdr(ctx, bs)
     rule_consumed(ctx, bs)
     rule_auxbox(ctx)
+    specconst.run(ctx, pid)
     ctx.not_decided("byte-exact reassembly and payload delivery (value-level); Brotli decompression")
     return ctx.finish(
         "The rejection clause and the size arithmetic of the container parser, decided on MIR for all layouts and chunkings: the "
